@@ -199,6 +199,13 @@ func (s *sharedEntryAttributes) toXmlInternal(parent *etree.Element, onlyNewOrUp
 	case *sdcpb.SchemaElem_Leaflist, *sdcpb.SchemaElem_Field:
 		// check if the element remains to exist
 		if s.shouldDelete() {
+			// a key leaf is never deleted on its own: the entry is deleted as a whole, or it remains and
+			// the key only identifies it (xmlAddKeyElements adds it with its value)
+			if s.parent != nil && s.parent.GetSchema() == nil {
+				if ancestor, _ := s.GetFirstAncestorWithSchema(); ancestor != nil && slices.Contains(ancestor.GetSchemaKeys(), s.pathElemName) {
+					return false, nil
+				}
+			}
 			// if not, add the remove / delete op
 			delElem := parent.CreateElement(s.pathElemName)
 			// a deleted node of another module than its parent needs its namespace like a written one
